@@ -1,14 +1,20 @@
 /-
-  C14 — Strict mode only adds uninitialized-value errors.
-  The strict flag is consulted in exactly three primitives: `get_if_init`, `set_if_init`, and the next-PC peek of
-  `set_pc` (after fix F17/F18 a pure memory peek).  Proved for all inputs: each primitive, when it succeeds under
-  strict, returns what the non-strict call returns; when it fails under strict it fails with a strict error; on
-  fully initialised words it never fails.  `setPc`/`readMem`/`writeMem` lift these to the memory layer (a strict
-  success is the same state change as the non-strict call; read never looks at the flag).  Operations on fully
-  initialised words stay fully initialised (C15.full_init), which is why an all-initialised machine stays so.
+  C14 — Strict mode only adds uninitialized-value errors.   (proved for the model: whole steps and whole runs)
+  Proved for every machine state (any devices, flags, memory): run one `step` with strict mode on and one on the same
+  machine with strict mode off — either the strict step ends with one of the nine strict (uninitialised-value) errors, or
+  both steps return the same result (ok, HALT, the same ISA error) and the same state up to the strict flag: registers, PC,
+  PSR, memory, device state, frames, observer, instruction counter (`strict_step_conservative`).  The same for the event
+  loop behind `run`, `run_with_limit`, `step_over`, `step_out` (`strict_run_conservative`).  On a machine whose memory words,
+  registers and saved stack pointer are all initialised, a step — and hence a run — never ends with a strict error and
+  leaves the machine all-initialised (`all_init_step`, `all_init_run`).
+  The proofs are relational / invariant calculi over the model's state monad (Lemmas/StrictRel, StrictMem, StrictStep,
+  StrictRun; Lemmas/InitInv, InitMem, InitStep, InitRun) that go through every primitive and every instruction.
+  The primitive-level lemmas below (get_if_init, set_if_init, set_pc) are kept: they are what the calculus rests on.
 -/
 import Lc3V.Props.C08
 import Lc3V.Props.C15
+import Lc3V.Lemmas.StrictRun
+import Lc3V.Lemmas.InitRun
 namespace Lc3V.C14
 open Lc3V Sim SimM
 
@@ -93,9 +99,64 @@ theorem operate_keeps_init (x y : W) :
   rw [h1, h2, h3, h4]
   simp [Word.isInit, Word.ofData]
 
+/-! ### whole steps and whole runs -/
+
+theorem withStrict_false (s : Sim) : withStrict s false = s.ns := rfl
+
+/-- **strict mode is conservative for a step**: either the strict step ends with a strict error, or the non-strict step
+    gives the same result and the same state up to the flag -/
+theorem strict_step_conservative (s : Sim) (hs : s.flags.strict = true) :
+    (∃ e, (Sim.step s).1 = .error (.err e) ∧ e.isStrict = true) ∨
+    Sim.step (withStrict s false) = ((Sim.step s).1, withStrict (Sim.step s).2 false) :=
+  (step_strict_conservative s hs).2
+
+/-- the strict flag itself never changes during a step -/
+theorem step_keeps_strict (s : Sim) (hs : s.flags.strict = true) : (Sim.step s).2.flags.strict = true :=
+  (step_strict_conservative s hs).1
+
+/-- a step that fails only under strict mode fails with a strict error -/
+theorem strict_only_failure_is_strict (s : Sim) (hs : s.flags.strict = true)
+    (hdiff : Sim.step (withStrict s false) ≠ ((Sim.step s).1, withStrict (Sim.step s).2 false)) :
+    ∃ e, (Sim.step s).1 = .error (.err e) ∧ e.isStrict = true := by
+  rcases strict_step_conservative s hs with h | h
+  · exact h
+  · exact absurd h hdiff
+
+/-- **strict mode is conservative for runs** (the loop behind run / run_with_limit / step_over / step_out, any tripwire,
+    any number of iterations): either the strict run ends with a strict error, or the non-strict run ends with the same
+    result in the same state up to the flag -/
+theorem strict_run_conservative (tw : Tripwire) (fuel iter : Nat) (s : Sim) (hs : s.flags.strict = true) (r : Except SimErr Pause) (s' : Sim)
+    (h : runLoop tw fuel iter s = some (r, s')) :
+    (∃ e, r = .error e ∧ e.isStrict = true) ∨ runLoop tw fuel iter (withStrict s false) = some (r, withStrict s' false) := by
+  have := runLoop_conservative tw fuel iter s hs
+  rw [h] at this
+  exact this.2
+
+/-- **all-initialised machines**: no strict error, and the machine stays all-initialised -/
+theorem all_init_step (s : Sim) (h : AllInit s) :
+    AllInit (Sim.step s).2 ∧ ∀ e, (Sim.step s).1 = .error (.err e) → e.isStrict = false :=
+  step_all_init s h
+
+theorem all_init_run (tw : Tripwire) (fuel iter : Nat) (s : Sim) (h : AllInit s) (r : Except SimErr Pause) (s' : Sim)
+    (hr : runLoop tw fuel iter s = some (r, s')) : AllInit s' ∧ ∀ e, r = .error e → e.isStrict = false := by
+  have := runLoop_all_init tw fuel iter s h
+  rw [hr] at this
+  exact this
+
+-- non-vacuity: an all-initialised strict machine exists (so the hypotheses of the theorems above are satisfiable together)
+example : ∃ s : Sim, AllInit s ∧ s.flags.strict = true := by
+  refine ⟨{ mem := Vector.replicate 65536 (Word.ofData 0), regs := Vector.replicate 8 (Word.ofData 0), pc := 0x3000, psr := PSR.new,
+            savedSp := Word.ofData 0x3000, frameNo := 0, frames := none, srDefs := [], alloca := #[], instrRun := 0,
+            prefetch := false, pause := .unsuccessful, observer := {}, mcr := true, flags := { strict := true },
+            breakpoints := [], iregs := defaultIregs, dev := DevHandler.new, log := [] }, ⟨?_, ?_, ?_⟩, rfl⟩
+  · intro a; simp [Sim.memAt, Word.isInit, Word.ofData]
+  · intro r; simp [Sim.reg, Word.isInit, Word.ofData]
+  · simp [Word.isInit, Word.ofData]
+
 def obligations : List Lean.Name :=
   [``getIfInit_conservative, ``getIfInit_err_kind, ``getIfInit_init, ``setIfInit_conservative, ``setIfInit_err_kind,
    ``setIfInit_init, ``strict_errs_are_strict, ``readMem_strict_irrelevant, ``setPc_conservative, ``setPc_err_kind,
-   ``setPc_init, ``operate_keeps_init]
+   ``setPc_init, ``operate_keeps_init, ``strict_step_conservative, ``step_keeps_strict, ``strict_only_failure_is_strict,
+   ``strict_run_conservative, ``all_init_step, ``all_init_run]
 
 end Lc3V.C14
